@@ -90,6 +90,11 @@ def load_unit(name):
     p = os.path.join(VERIF, "units", name + ".toml")
     with open(p, "rb") as f:
         u = tomllib.load(f)
+    if "base" in u:
+        # `base = "<unit>"`: same lists as that unit, overridden key by key (used by the honest-run twins of the verifier units)
+        b = load_unit(u["base"])
+        b.update(u)
+        u = b
     u["name"] = name
     return u
 
@@ -161,6 +166,8 @@ class Contract:
         self.loopends = []  # list[(fp, ordinal, lines)]
         self.proofs = []  # list[(where, anchor, lines)]
         self.src = None
+        self.norefuse_honest = None
+        self.norefuse = None  # label: refusals (panic!/unwrap/expect, index, overflow, callee preconditions) are obligations in this function
 
 
 LABEL_RE = re.compile(r"//#\s*([A-Za-z0-9_.\-]+)\s*$")
@@ -191,6 +198,12 @@ def parse_vc(path):
                 mode = None
             elif s.startswith("@ret "):
                 cur.ret = s[5:].strip()
+            elif s.startswith("@norefuse "):
+                cur.norefuse = s[10:].strip()
+            elif s.startswith("@norefuse_honest "):
+                # refusals are obligations only in units marked `honest = true` (where honest_run() is true and the function's
+                # `honest_run() ==> ..` preconditions describe an honest counterpart's input)
+                cur.norefuse_honest = s[17:].strip()
             elif s == "@spec":
                 mode = "spec"
                 buf = cur.spec
@@ -253,6 +266,8 @@ class Out:
         self.lines = []
         self.meta = []
         self.waived = []
+        self.norefuse = {}  # fn path -> label
+        self.honest = False
 
     def add(self, text, **meta):
         for l in text.split("\n"):
@@ -350,6 +365,14 @@ def sub_markers(item, contract, out, assume=False, twin=None):
     else:
         text = text.replace("/*@RET<*/", "").replace("/*@>RET*/", "")
     text = text.replace("/*@NORET*/", "")
+    nr_label = None
+    if contract is not None:
+        nr_label = contract.norefuse or (contract.norefuse_honest if out.honest else None)
+    if nr_label and not assume:
+        # honest-path functions: a refusal is a failure of the property's positive half, so the allowed divergences of rule R5
+        # (ops mode) become obligations again: vrefuse() requires false, unwrap / expect require Some / Ok
+        text = text.replace("vrefuse()", "vrefuse_strict()").replace(".unwrap_refuse()", ".unwrap_strict()").replace(".expect_refuse(", ".expect_strict(")
+        out.norefuse[path] = nr_label
     # proof anchors (on source lines)
     src_lines = text.split("\n")
     inserts_before = {}
@@ -574,6 +597,7 @@ def assemble(unit, items=None, twin=False):
     for cf in unit.get("contracts", []):
         contracts.update(parse_vc(os.path.join(VERIF, "contracts", cf)))
     out = Out()
+    out.honest = bool(unit.get("honest", False))
     out.add("#![feature(allocator_api)]", kind="prelude")
     out.add("#![allow(non_snake_case, non_upper_case_globals, non_camel_case_types, unused, dead_code)]", kind="prelude")
     out.add("use vstd::prelude::*;", kind="prelude")
@@ -582,6 +606,9 @@ def assemble(unit, items=None, twin=False):
     out.add("use vstd::prelude::*;", kind="prelude")
     for sf in unit.get("shims", []):
         out.add_file(os.path.join(VERIF, "shim", sf), "shim")
+    # honest_run(): true in the units that verify the honest runs (counterpart's input satisfies the acceptance predicates:
+    # no refusal allowed, the verifier must return true), false in the general units (arbitrary input, a panic is a refusal)
+    out.add("pub open spec fn honest_run() -> bool { %s }" % ("true" if out.honest else "false"), kind="prelude")
     out.add("} // mod shim", kind="prelude")
     out.add("pub mod code {", kind="prelude")
     out.add("use vstd::prelude::*;", kind="prelude")
